@@ -55,7 +55,9 @@ var entryTokens = []string{
 // upperTokens: the upper-case escape classes with what they interact with (case folding under the i flag, class
 // merging). A stratum of their own ("U"): every entry with one of them costs tens of milliseconds in the Go regexp
 // printer, which walks all of Unicode for the negated class.
-var upperTokens = []string{`\S`, `\D`, `\W`, `\s`, "a", "|", "[", "]", ".", "é", "[^a]"}
+var upperTokens = []string{`\S`, `\D`, `\W`, `\s`, "a", "|", "[", "]", ".", "é", "[^a]",
+	// white space that is not indentation: a form feed or a no-break space at the start of an entry belongs to it
+	"\f", "\u00a0"}
 
 // additional tokens for C02 (pasting safety)
 var entryTokensC02 = []string{"\t", "\x01", "\x7f", `\x22`, `\Q"\E`, `\x{2019}`, `\x{fffd}`, `\(?-s:`, `\)`, `(?s:.)`, `(?i:a)`, "(?m)"}
